@@ -82,12 +82,16 @@ class Sandbox(object):
         self.root = tempfile.mkdtemp(prefix='c%d_' % os.getpid(), dir=WORK_ROOT)
         self.z = os.path.join(self.root, 'z')
         os.mkdir(self.z)
+        self._pid = os.getpid()
 
     def path(self, *parts):
         return os.path.join(self.root, *parts)
 
     def close(self):
-        shutil.rmtree(self.root, ignore_errors=True)
+        # a sandbox inherited through fork() belongs to the parent (and may be in use by sibling
+        # workers): only the process that made it removes it
+        if getattr(self, '_pid', os.getpid()) == os.getpid():
+            shutil.rmtree(self.root, ignore_errors=True)
 
     def __enter__(self):
         return self
